@@ -49,6 +49,10 @@ type Case struct {
 	// near-miss names exist (another letter case, the name without a trailing ".pub", with a doubled
 	// ".pub"): such a login name is NOT registered, nothing may be requested for it
 	KeyFile string
+	// Prelude: the handler object first serves another request, for CA key algorithm PrevAlgo (which may
+	// or may not have a slot), before the judged request goes through the same object
+	Prelude  bool `json:",omitempty"`
+	PrevAlgo int  `json:",omitempty"`
 }
 
 func genWeird(t *rapid.T, label string, allowEmpty bool) string {
@@ -115,6 +119,9 @@ func gen(t *rapid.T) Case {
 			c.Exts = map[string]any{rapid.SampledFrom([]string{"isHWKey", "touchPolicy", "principals", "validity", "IsFirefighter", "privKeyNeeded"}).Draw(t, "extKey"): rapid.SampledFrom([]any{true, "root", float64(2), "315360000"}).Draw(t, "extVal")}
 		}
 	}
+	if rapid.IntRange(0, 2).Draw(t, "prelude") == 1 {
+		c.Prelude, c.PrevAlgo = true, rapid.SampledFrom([]int{0, 1, 2, 3, 4, 5, 7, 100}).Draw(t, "prevAlgo")
+	}
 	if rapid.Bool().Draw(t, "sameUser") {
 		c.ReqUser = c.LogName
 	}
@@ -142,6 +149,10 @@ func gen(t *rapid.T) Case {
 	for _, a := range picked {
 		name := rapid.SampledFrom(algoNames[a]).Draw(t, fmt.Sprintf("name%d", a))
 		c.KeyIDs[name] = fmt.Sprintf("slot-for-%d", a)
+		if rapid.IntRange(0, 3).Draw(t, fmt.Sprintf("oddSlot%d", a)) == 2 {
+			// identifiers are opaque texts: whatever they contain goes to the CA as it stands
+			c.KeyIDs[name] = fmt.Sprintf(rapid.SampledFrom([]string{"ssh-${HOME}-%d", "${PATH}%d", "ssh-$USER-key-%d", "${VERIF_UNSET_VARIABLE}slot-%d", "slot %d with spaces", "é-日本-%d", "%%s-%d", "~/%d", "$(id)-%d", "slot-%d\\n", "{{.Slot}}-%d"}).Draw(t, fmt.Sprintf("oddSlotShape%d", a)), a)
+		}
 	}
 	if c.Via == "env" {
 		// through NewReqParam the transaction id is server-generated and the algorithm travels in the message
@@ -238,6 +249,14 @@ func exec(c Case) (vh.Outcome, error) {
 			conn.Close()
 			return out, vh.Errf("NewHandler failed for key identifiers %v: %v", c.KeyIDs, herr)
 		}
+		if c.Prelude {
+			// an earlier request on the same handler object: what it asked for is no input of the next one
+			if prev, pe := vh.BuildParam(vh.ParamSpec{LogName: c.LogName, Policy: "NONS", ReqUser: c.LogName, ReqHost: "earlier-host", ClientIP: c.IP, TransID: "0000000001", CAAlgo: c.PrevAlgo, Via: "direct"}); pe == nil {
+				_ = vh.Catch(func() {
+					_ = gensign.Run(context.Background(), prev, []gensign.Handler{h}, &vh.FakeCA{Default: vh.CABehaviour{NCerts: 1}})
+				})
+			}
+		}
 		ca := &vh.FakeCA{Default: vh.CABehaviour{NCerts: 1}}
 		addsBefore := len(p.Adds())
 		var runErr error
@@ -322,7 +341,7 @@ func exec(c Case) (vh.Outcome, error) {
 	return out, nil
 }
 
-const rule = "login name, client-declared user and host, transaction id with JSON metacharacters (quotes, backslash, an injection attempt, U+2028), non-ASCII, spaces, and long values of 61..5000 bytes around 64 / 128 / 256 / 4096; IPv4/IPv6 source; requested CA key algorithm 0..5, 7, 100; further client claims in the message (declared OpenSSH version incl. those older than ECDSA / Ed25519 support, touch-to-SSH, touchless-sudo with firefighter / hosts / time, signature algorithm, extension map with attribute look-alikes) that must not reach the request; the registered key in '<login>.pub' or bare '<login>' - or only under near-miss file names (other letter case, doubled '.pub'), in which case nothing may be requested -, its line with or without authorized_keys options (restrict, no-pty, from=, command=, ...); handler configuration written as JSON and loaded by config.NewGensignConfig: validity 1 s..10 y (edges 1, 3599, 3600, 2^31, 315360000) and beyond 32 bits (2^32-1, 2^32, 2^32+600, 9999999999, 2^40, 2^53: the option is a 64-bit number) or omitted (default 12 h), key_identifiers keyed by algorithm name in random case, by default/unknown, or by number, with or without the requested algorithm; parameters built directly or through NewReqParam; honest agent, recording CA; each Case issues the request twice. Oracle on the request seen by the CA: principals = [login name]; validity = configured; extensions = the five documented names with empty values; key slot = the one configured for the requested algorithm (reference resolution of names / numbers), none => HandlerConfErr and no CA call; public key parses, is not the registered key, differs between the two requests and equals the public half of the private key the agent received; KeyId decoded by the reference decoder and by keyid.Unmarshal: single principal = login name, transaction id / ip / declared user / host verbatim, version 1, all flags false, usage 0, never-touch. Non-trivial: declared user != login name, a metacharacter or non-ASCII value, or a non-default algorithm."
+const rule = "login name, client-declared user and host, transaction id with JSON metacharacters (quotes, backslash, an injection attempt, U+2028), non-ASCII, spaces, and long values of 61..5000 bytes around 64 / 128 / 256 / 4096; IPv4/IPv6 source; requested CA key algorithm 0..5, 7, 100; further client claims in the message (declared OpenSSH version incl. those older than ECDSA / Ed25519 support, touch-to-SSH, touchless-sudo with firefighter / hosts / time, signature algorithm, extension map with attribute look-alikes) that must not reach the request; the registered key in '<login>.pub' or bare '<login>' - or only under near-miss file names (other letter case, doubled '.pub'), in which case nothing may be requested -, its line with or without authorized_keys options (restrict, no-pty, from=, command=, ...); handler configuration written as JSON and loaded by config.NewGensignConfig: validity 1 s..10 y (edges 1, 3599, 3600, 2^31, 315360000) and beyond 32 bits (2^32-1, 2^32, 2^32+600, 9999999999, 2^40, 2^53: the option is a 64-bit number) or omitted (default 12 h), key_identifiers keyed by algorithm name in random case, by default/unknown, or by number, with or without the requested algorithm, their values plain or containing shell / template metacharacters (${HOME}, $USER, $(id), %s, ~, {{.}}, spaces, non-ASCII); parameters built directly or through NewReqParam; honest agent, recording CA; each Case issues the request twice, each time on a fresh handler object which, in a third of the cases, has first served another request for another CA key algorithm. Oracle on the request seen by the CA: principals = [login name]; validity = configured; extensions = the five documented names with empty values; key slot = the one configured for the requested algorithm (reference resolution of names / numbers), none => HandlerConfErr and no CA call; public key parses, is not the registered key, differs between the two requests and equals the public half of the private key the agent received; KeyId decoded by the reference decoder and by keyid.Unmarshal: single principal = login name, transaction id / ip / declared user / host verbatim, version 1, all flags false, usage 0, never-touch. Non-trivial: declared user != login name, a metacharacter or non-ASCII value, or a non-default algorithm."
 
 func TestC02Request(t *testing.T) {
 	vh.Run(t, vh.Spec[Case]{Property: "C02", Name: "TestC02Request", Rule: rule, Gen: gen, Exec: exec})
